@@ -355,6 +355,11 @@ func (m *Monitors) specJudge(o *OpRec) (problem string, skip bool) {
 					return "claim-payload-skew: root promise in the reply is " + fmt.Sprint(got.RootPromise) + ", at the claim instant it was " + rp.String(), false
 				}
 			} else if got.RootPromise != nil {
+				// absent at the claim instant: if it is what the request's later read transaction saw, this is the same
+				// skew (the payload is read after the claim has committed; the promise was created in between)
+				if last := o.Txs[len(o.Txs)-1]; last.Next != nil && last.Next.P[root] != nil && viewEq(got.RootPromise, last.Next.P[root]) {
+					return "claim-payload-skew: root promise in the reply is " + fmt.Sprint(got.RootPromise) + ", at the claim instant it did not exist yet", false
+				}
 				return bad("claim reply shows root promise %v which did not exist", got.RootPromise)
 			}
 			if typ == "resume" {
